@@ -73,6 +73,10 @@ CHECKS = {
    text="Generated positions of GOAWAY(last-stream-id, code) relative to 1..5 in-flight requests with partial responses, a possible REFUSED_STREAM, later answers in any order, connection loss, and further requests racing the GOAWAY. Checked per request tag over every connection the client dials: HEADERS at most once unless each earlier copy was disclaimed by its connection; no stream opened after the GOAWAY was seen; disclaimed requests resolved at quiescence and never successful from that connection; retry==true only when the server cannot have processed the request; answered requests at or below last-stream-id succeed exactly; everything resolves exactly once. Exploration only.",
    note="Trusted: scripted servers' frame logs; the client's quiescence.",
    ref="6.2 C11"),
+ "C12": dict(technique="fault-injecting property-based testing (rapid) of the client: recorded server streams x cut offsets x frame mutations x scripted adversaries x transport faults x Close timing; differential oracle for successes against an independent parser of the delivered octets",
+   text="Recorded well-formed response streams are cut at any octet, mutated frame-wise, or interrupted by scripted adversaries, followed by silence / close / reset, with write failures on the client's side or Client.Close() at generated stages. Every RoundTrip must return exactly once within MaxResponseTime plus a margin (misses are reported with the client's goroutine dump), a success must equal the complete well-formed response an independent parser (x/net Framer + strict reference HPACK) finds on that stream in the octets actually delivered, follow-up requests on a fresh connection must get their own responses, no client loop may remain after Close, and the process must survive. Exploration: cut points and mutations are sampled; timing-dependent paths (timeouts, Close races) run with real but short timers.",
+   note="Trusted: the reference parser of the delivered octets; wall-clock bound only as 'resolved within timeout + 4 s'.",
+   ref="6.2 C12"),
 }
 PENDING = {}  # id -> reason, for properties not claimed (yet)
 
